@@ -206,6 +206,10 @@ NEEDED = (['block:' + t for t in 'bcgistuw'] + ['sub:' + t for t in 'BCSTW']
              'ig-t', 'ig-d', 'ig-r', 'ig-m', 'ig-i', 'ig-e', 'hdr', 'ftr'])
 
 
+LEGS = ['leg:sna2skool -H', 'leg:sna2skool -l', 'leg:sna2skool -w', 'leg:sna2skool (no option)', 'leg:skool2ctl -k',
+        'leg:skool2ctl -h', 'leg:skool2ctl -l', 'leg:skool2ctl (-b only)', 'leg:no -e (final i block is an entry)', 'leg:-s -e']
+
+
 def run(tier):
     rep = Report(PID, tier)
     wd = workdir('c03')
@@ -220,7 +224,6 @@ def run(tier):
     nsim, nrand, nlegs = (220, 160, 2) if tier == 'quick' else (2000, 2500, 3)
     states, gen = simulate_docs(wd, sd, nsim, procs=12 if tier == 'quick' else 16)
     log('C03: %d documents from CtlDoc behaviours (%.0fs)' % (len(states), rep.timer.s()))
-    rep.transitions += gen
     rnd = random.Random(sd * 7919 + 17)
     jobs = []
     for n, st in enumerate(states):
@@ -252,7 +255,12 @@ def run(tier):
     for c in cases:
         rep.count((c['src'], c['tag'].split('.')[0], tuple(c['dbg']['sna_opts']), tuple(c['dbg']['ctl_opts']), c['dbg']['tail']))
         feats.update(c['feat'])
-    missing = [f for f in NEEDED if not feats.get(f)]
+    for c in cases:
+        d = c['dbg']
+        feats.update(['leg:sna2skool ' + o for o in d['sna_opts'] if o.startswith('-')] or ['leg:sna2skool (no option)'])
+        feats.update(['leg:skool2ctl ' + o for o in d['ctl_opts']] or ['leg:skool2ctl (-b only)'])
+        feats.update(['leg:no -e (final i block is an entry)'] if d['tail'] else ['leg:-s -e'])
+    missing = [f for f in NEEDED + LEGS if not feats.get(f)]
     if missing:
         raise MachineryError('C03: document features never generated: %s' % ', '.join(missing))
     # (C) TLC judges
@@ -282,7 +290,9 @@ def run(tier):
                        'characters for c, no m/c on index displacements)',
                        'without -k only documents without dot/colon line structure are claimed to round-trip textually',
                        'comment braces: every { precedes every } (the opposite order is the open C18 finding)',
-                       'a trailing ignored block is never generated (it is the terminator of the control file)']
+                       'a trailing ignored block is never generated (it is the terminator of the control file)',
+                       'not generated: L (loop) directives, M repeat flag, ASM block directives inside non-entry blocks, '
+                       'statements inside i blocks, #TABLE/#LIST markup (C18 covers wrapping)']
     rmworkdir('c03')
     return rep.finish()
 
